@@ -12,19 +12,19 @@ import (
 
 // GenCfg is the per-run (swarm) configuration drawn from the run's seed.
 type GenCfg struct {
-	NP, NS, NE  int
-	Steps       int
-	W           map[string]int // operation weights (0 = switched off)
-	AliasP      float64        // probability that an operand reuses an already chosen slot
-	PZeroRecv   float64        // probability of zeroing a point slot before using it as receiver
-	PMisuse     float64
-	PRejectLen  float64
-	PRejectSem  float64
-	PScribble   float64
+	NP, NS, NE int
+	Steps      int
+	W          map[string]int // operation weights (0 = switched off)
+	AliasP     float64        // probability that an operand reuses an already chosen slot
+	PZeroRecv  float64        // probability of zeroing a point slot before using it as receiver
+	PMisuse    float64
+	PRejectLen float64
+	PRejectSem float64
+	PScribble  float64
 	// PBigList: probability that a "more than four terms" multi-scalar call gets a threshold-sized list
 	PBigList float64
 	// PGC: probability per step of a forced garbage collection (twice: empties sync.Pool and its victim cache)
-	PGC float64
+	PGC         float64
 	PProbe      float64
 	PRelatives  float64 // probability of the related-operands macro
 	PImport     float64 // probability of the export/scale/import macro
@@ -784,11 +784,11 @@ func (g *Gen) randomStep() {
 		return
 	}
 	if len(g.r.Ledger) > 0 && rng.Bool(cfg.PScribble) {
-		g.push(Call{Op: "H.Scribble", L: rng.Intn(len(g.r.Ledger)), Mode: rng.Uint64(), Fault: "scribble"})
+		g.push(Call{Op: "H.Scribble", L: rng.Intn(len(g.r.Ledger)), Mode: rng.Uint64() >> 12, Fault: "scribble"}) // (52 bits: traces pass through float64 JSON numbers in the driver)
 		return
 	}
 	if len(g.r.Records) > 0 && rng.Bool(cfg.PProbe) {
-		g.push(Call{Op: "H.Probe", L: rng.Intn(len(g.r.Records))})
+		g.push(Call{Op: "H.Probe", L: rng.Intn(len(g.r.Records)), Mode: rng.Uint64() >> 12})
 		return
 	}
 	if len(w.P) > 0 && len(w.E) >= 5 && rng.Bool(cfg.PImport) {
